@@ -31,9 +31,11 @@ def cases(tier, seed):
     for nx, (g, n, T) in itertools.product(nxs, GRIDS):
         out.append({"cls": "ideal", "table": None, "p_f": 1000.0, "p_i": 8000.0, "nx": nx,
                     "grid": g, "n": n, "T": T, "sched": "scalar", "seed": seed})
-    for tab in tabs:
+    for tab in tabs + ([] if thorough else ["T_lib"]):
         lo, hi = tables.table_range(tab)
-        for p_i, ratio, copy in itertools.product(p_is, RATIOS + ["table-min"], (0, 1)):
+        # T_lib (the library's own builder) starts at pseudopressure exactly 0: in quick only its table-min pair
+        ratios = ["table-min"] if tab not in tabs else RATIOS + ["table-min"]
+        for p_i, ratio, copy in itertools.product(p_is, ratios, (0, 1)):
             if ratio == "table-min":  # frac-face pressure exactly at the first table row
                 if copy or p_i != 8000.0:
                     continue
@@ -45,7 +47,7 @@ def cases(tier, seed):
                 ratio_c = ratio + (1 - ratio) * 0.3 * off
             else:
                 p_i_c, ratio_c = p_i, ratio
-            p_f = ratio_c * p_i_c
+            p_f = lo if (ratio == lo / p_i and copy == 0) else ratio_c * p_i_c  # table-min: EXACTLY the first row
             if not (lo <= p_f < p_i_c <= hi):
                 continue
             for nx, (g, n, T), sc in itertools.product(nxs, GRIDS, SCHEDS):
